@@ -50,7 +50,15 @@ func runSolver(ctx context.Context, s Solver, file string, timeout time.Duration
 	cmd.Stderr = &out
 	_ = cmd.Run()
 	res := SolveResult{Backend: s.Name, Ms: time.Since(start).Milliseconds(), Output: out.String(), File: file}
-	first := strings.TrimSpace(strings.SplitN(out.String(), "\n", 2)[0])
+	first := ""
+	for _, l := range strings.Split(out.String(), "\n") {
+		l = strings.TrimSpace(l)
+		if l == "" || strings.HasPrefix(l, "WARNING") {
+			continue
+		}
+		first = l
+		break
+	}
 	switch {
 	case first == "unsat":
 		res.Status = "unsat"
